@@ -22,7 +22,9 @@ int f1(int u) { return u; }
 int f2(int u, int v) { return u; }
 int f3(int u, int v, int w) { return u; }
 process P() { state s0; init s0; }
-system P;
+process PS(const int[0,3] pi, const int[0,3] pj) { int px; state L0; init L0; }
+process PT(const int[0,2] tu, const int[0,2] tv, const int[0,2] tw) { int pz; state M0; init M0; }
+system P, PS, PT;
 )";
 
 // kind tree in the model's format: constants with type tag, doubles as hex bits, DOT with the field *name*
